@@ -9,6 +9,7 @@ package c15
 // both members directly.
 
 import (
+	"bytes"
 	"context"
 	"errors"
 	"fmt"
@@ -28,6 +29,11 @@ import (
 )
 
 var errInjected = errors.New("injected member fault")
+
+// errReader fails every Read (appended to the content: "everything, then an error instead of EOF").
+type errReader struct{}
+
+func (errReader) Read([]byte) (int, error) { return 0, errors.New("injected source fault") }
 
 // faulty fails the write calls of one member when armed.
 type faulty struct {
@@ -188,6 +194,28 @@ func runFaults(s FaultScript, v *vt.V) {
 		if f, ok := faultAt[i]; ok && f.Member >= 0 && f.Member < 2 {
 			fs[f.Member].arm = f.Stage
 		}
+		if f, ok := faultAt[i]; ok && f.Stage == "source" && op.K == "pushBlob" && op.Mode == 0 && op.R < len(u.Repos) {
+			// the caller's reader delivers the whole content and then fails: the push must fail as a
+			// whole - in both members or in neither
+			data := u.BlobBytes(op.B)
+			dg := u.BlobDigest(op.B)
+			had0, had1 := has(mems[0], "blob", u.Repos[op.R], dg), has(mems[1], "blob", u.Repos[op.R], dg)
+			_, err := uni.Reg.PushBlob(ctx, u.Repos[op.R], ociregistry.Descriptor{MediaType: "application/octet-stream", Digest: dg, Size: int64(len(data))},
+				io.MultiReader(bytes.NewReader(data), errReader{}))
+			now0, now1 := has(mems[0], "blob", u.Repos[op.R], dg), has(mems[1], "blob", u.Repos[op.R], dg)
+			if err == nil {
+				v.Failf("success-despite-source-failure", "op %d %+v: the content reader failed after delivering %d bytes but PushBlob through the unifier reported success", i, op, len(data))
+				return
+			}
+			if had0 == had1 && now0 != now1 {
+				v.Failf("failed-write-applied-to-one-member", "op %d %+v: the content reader failed after delivering all %d bytes; the push failed (%v) but member 0 %s the blob and member 1 %s it", i, op, len(data), err, map[bool]string{true: "has", false: "lacks"}[now0], map[bool]string{true: "has", false: "lacks"}[now1])
+				return
+			}
+			fired++
+			prevFired = true
+			v.Class("faults/source-reader")
+			continue
+		}
 		commitRepo := 0 // the repository the writer's session belongs to
 		if w := uni.Writers[op.W]; w != nil {
 			commitRepo = w.Repo
@@ -279,7 +307,7 @@ func runFaults(s FaultScript, v *vt.V) {
 var propFaults = &vt.Prop[FaultScript]{
 	ID:   "C15",
 	Name: "WritesWithMemberFaults",
-	Rule: "two ocimem members start equal (generated prefix); the rest of a generated history (<= 30 ops, valid names, pushes, manifests, mounts, deletes, chunked uploads) goes through the unifier while one member, behind a fault layer, fails chosen write calls at entry, after having consumed the pushed content, or at commit time; a failed call is retried without the fault half of the time; oracle: a write call during which a member failed must not report success, and after every write call that reports success its effect is looked up in both members directly (pushed / mounted / committed blob and manifest present, tag bound to the pushed digest, deleted item absent); non-trivial = a fault fired; distinct = (policy, op kinds with fault positions)",
+	Rule: "two ocimem members start equal (generated prefix); the rest of a generated history (<= 30 ops, valid names, pushes, manifests, mounts, deletes, chunked uploads) goes through the unifier while one member, behind a fault layer, fails chosen write calls at entry, after having consumed the pushed content, or at commit time, or the caller's content reader fails after delivering everything; a failed call is retried without the fault half of the time; oracle: a write call during which a member failed must not report success, and after every write call that reports success its effect is looked up in both members directly (pushed / mounted / committed blob and manifest present, tag bound to the pushed digest, deleted item absent); non-trivial = a fault fired; distinct = (policy, op kinds with fault positions)",
 	Gen: func(t *rapid.T) FaultScript {
 		cfg := hist.Config{MaxOps: 22, ValidRepos: 2, Uploads: true, Deletes: true, MaxSmall: 20, NoRange: true, NoWrongOffset: true}
 		h := hist.Gen(cfg)(t)
@@ -291,7 +319,7 @@ var propFaults = &vt.Prop[FaultScript]{
 			if i < s.Prefix || !isWrite(op.K) || rapid.IntRange(0, 3).Draw(t, "fault") != 0 {
 				continue
 			}
-			stage := rapid.SampledFrom([]string{"entry", "after-read", "commit"}).Draw(t, "stage")
+			stage := rapid.SampledFrom([]string{"entry", "after-read", "commit", "source"}).Draw(t, "stage")
 			s.Faults = append(s.Faults, Fault{Op: len(out) - 1, Member: rapid.IntRange(0, 1).Draw(t, "member"), Stage: stage})
 			if !strings.HasPrefix(op.K, "up") && rapid.Bool().Draw(t, "retry") {
 				out = append(out, op)
